@@ -3316,8 +3316,10 @@ def _render_disp(tok):
         return "true" if v[1] else "false"
     if v[0] == "float":
         x = float(v[1])
-        if x != x or x in (float("inf"), float("-inf")):
-            return None
+        if x != x:
+            return "NaN"
+        if x in (float("inf"), float("-inf")):
+            return "inf" if x > 0 else "-inf"
         if prec is not None:
             return format(x, ".%df" % prec)
         if x == int(x) and abs(x) < 1e16:
